@@ -59,6 +59,8 @@ def run_property(prop: str, tier: str, seed: int, evidence_dir=None, quiet=False
             check_terms_copied(idx, rep, files)
         from .rules.defaults import check_explicit_arguments
         rep.stats["optional_argument_defaults"] = check_explicit_arguments(idx, rep, files)
+        from .rules.defaults import check_falsy_defaults
+        check_falsy_defaults(idx, rep, files)
         from .rules.forwarding import check_encoding_forwarding
         rep.stats["encoder_call_sites"] = check_encoding_forwarding(idx, rep, files)
         from .rules.closures import check_closure_reuse
